@@ -281,8 +281,10 @@ static sigjmp_buf g_jmp;
 static volatile sig_atomic_t g_armed = 0;
 static volatile sig_atomic_t g_serial = 0, g_seen_serial = -1, g_ticks_same = 0;
 
-static void on_signal(int sig)
+static void *volatile g_fault_addr = nullptr;
+static void on_signal(int sig, siginfo_t *si, void *)
 {
+    if(sig != SIGALRM) g_fault_addr = si ? si->si_addr : nullptr;
     if(sig == SIGALRM) {
         if(!g_armed) { g_seen_serial = -1; return; }
         if(g_seen_serial == g_serial) { if(++g_ticks_same >= 2) { g_armed = 0; siglongjmp(g_jmp, sig); } }
@@ -302,7 +304,7 @@ inline void install()
     static char alt[1 << 16];
     stack_t ss; ss.ss_sp = alt; ss.ss_size = sizeof alt; ss.ss_flags = 0; sigaltstack(&ss, nullptr);
     struct sigaction sa; memset(&sa, 0, sizeof sa);
-    sa.sa_handler = on_signal; sa.sa_flags = SA_ONSTACK | SA_NODEFER;
+    sa.sa_sigaction = on_signal; sa.sa_flags = SA_SIGINFO | SA_ONSTACK | SA_NODEFER;
     for(int s : {SIGSEGV, SIGBUS, SIGFPE, SIGALRM}) sigaction(s, &sa, nullptr);
     struct itimerval tv; tv.it_interval.tv_sec = 2; tv.it_interval.tv_usec = 0; tv.it_value = tv.it_interval;
     setitimer(ITIMER_REAL, &tv, nullptr);   // watchdog tick: a call that spans two ticks (2-4 s) is reported as a hang
